@@ -16,8 +16,10 @@ Definition mismatches_reinterp (cs : list reinterp_case) : list N :=
 (* ---- wl: one patch applied under several whitelists ---- *)
 (** observation of one run: class, touched files, recorded calls, content of every new file *)
 Definition wl_obs := (Z * Z * list event * list rle)%type.
-(** (id, old container, new container, old files, messages, runs) *)
-Definition wl_case := (N * container * container * list rle * list rmsg * list (option (list Z) * wl_obs))%type.
+(** (id, claims, old container, new container, old files, messages, runs); [claims] = the
+    harness states C17 on this patch (a real or well-formed hand-made one), so the new
+    container must meet the theorem's hypothesis [wf_container] *)
+Definition wl_case := (N * bool * container * container * list rle * list rmsg * list (option (list Z) * wl_obs))%type.
 
 Definition file_at (t : tree) (f : path * Z) : list byte :=
   match tlookup t (fst f) with Some (File d) => d | _ => [] end.
@@ -34,10 +36,10 @@ Definition check_run (oldC newC : container) (olds : list (list byte)) (ms : lis
   end.
 
 Definition check_wl (c : wl_case) : bool :=
-  let '(_, oldC, newC, olds, ms, runs) := c in
+  let '(_, claims, oldC, newC, olds, ms, runs) := c in
   let olds' := map xexpand olds in
   let ms' := map unr ms in
-  forallb (check_run oldC newC olds' ms') runs.
+  (negb claims || wf_containerb newC) && forallb (check_run oldC newC olds' ms') runs.
 
 Definition mismatches_wl (cs : list wl_case) : list N :=
-  map (fun c => let '(id, _, _, _, _, _) := c in id) (filter (fun c => negb (check_wl c)) cs).
+  map (fun c => let '(id, _, _, _, _, _, _) := c in id) (filter (fun c => negb (check_wl c)) cs).
